@@ -294,6 +294,11 @@ N("idiom-ct_eq-accumulating-loop", ["C20"],
 B("sibling-ct_eq-ignores-rhs", ["C20"],
   [("src/support/subtle.rs", "        self.as_limbs().ct_eq(rhs.as_limbs())", "        let _ = rhs;\n        self.as_limbs().ct_eq(self.as_limbs())")], "ct_eq")
 
+# ---- reviewed rows survive a rename of the local variables in their discriminator
+N("idiom-rename-locals-in-row-sites", ["C06", "C08"],
+  [("src/bits.rs", "        let mut total = 0;\n\n        let mut i = 0;\n        while i < LIMBS {\n            total += self.limbs[i].count_ones() as usize;\n            i += 1;\n        }\n\n        total", "        let mut ones = 0;\n        let mut k = 0;\n        while k < LIMBS {\n            ones += self.limbs[k].count_ones() as usize;\n            k += 1;\n        }\n        ones"),
+   ("src/bytes.rs", "        let mut c = bytes.len();\n        while i < bytes.len() {\n            c -= 1;\n            let (limb, byte) = (i / 8, i % 8);\n            limbs[limb] += (bytes[c] as u64) << (byte * 8);", "        let mut cursor = bytes.len();\n        while i < bytes.len() {\n            cursor -= 1;\n            let (word, lane) = (i / 8, i % 8);\n            limbs[word] += (bytes[cursor] as u64) << (lane * 8);")])
+
 # ---- R-TOTAL/overflow-checks on C16 (defect F16, re-created)
 B("ovf-scale-size_hint-256-bit-formula", ["C16"],
   [("src/support/scale.rs", "            _ => self.0.byte_len() + 1,\n", "            _ => (32 - self.0.leading_zeros() / 8) + 1,\n")], "Overflow(Sub:32")
